@@ -1143,6 +1143,190 @@ def methods(repo, out):
                 out.ok(where, st, f'all {len(names)} TABLE_METHODS are keys of INTERP_METHODS')
 
 
+# ========================================================================== C15.cachekey (SLOT)
+def _names_no_dtype(e):
+    """Names read by expression e, ignoring `.dtype` look-ups (they never depend on the cell)."""
+    out = set()
+    todo = [e]
+    while todo:
+        n = todo.pop()
+        if isinstance(n, ast.Attribute) and n.attr == 'dtype':
+            continue
+        if isinstance(n, ast.Name):
+            out.add(n.id)
+        if isinstance(n, (ast.Lambda, ast.FunctionDef)):
+            continue
+        todo.extend(ast.iter_child_nodes(n))
+    return out
+
+
+def _index_tainted(fn, idx_param):
+    """Local names whose value depends on the interval index: by data flow or by an `if` on the index."""
+    t = {idx_param}
+    changed = True
+    while changed:
+        changed = False
+        for st in astx.walk_stmts(fn.node.body):
+            if not isinstance(st, (ast.Assign, ast.AugAssign, ast.AnnAssign)):
+                continue
+            tg = {x.id for tt in astx.assigned_targets(st) for x in astx.walk(tt) if isinstance(x, ast.Name)
+                  and isinstance(x.ctx, ast.Store)}
+            if tg <= t:
+                continue
+            dep = st.value is not None and bool(_names_no_dtype(st.value) & t)
+            if not dep:
+                for a in astx.ancestors(st):
+                    if a is fn.node:
+                        break
+                    if isinstance(a, (ast.If, ast.While)) and _names_no_dtype(a.test) & t:
+                        dep = True
+                        break
+            if dep:
+                t |= tg
+                changed = True
+    return t
+
+
+def _raw_cover(ctx, e, at, idx_param, depth=0):
+    """Which components of the unclamped interval index e is made of: 'all', a frozenset of positions, or
+    None when e is not (only) the index as handed in."""
+    if depth > 5:
+        return None
+    if isinstance(e, ast.Name):
+        ds = ctx.rd.defs(at, e.id)
+        if ds == {ctx.g.entry}:
+            return 'all' if e.id == idx_param else None
+        if len(ds) != 1:
+            return None         # re-assigned on some path: the clamped index
+        d = next(iter(ds))
+        if d.kind != 'stmt' or not isinstance(d.ast, ast.Assign) or len(d.ast.targets) != 1:
+            return None
+        for a in astx.ancestors(d.ast):
+            if a is ctx.fn.node:
+                break
+            if isinstance(a, (ast.If, ast.While, ast.For)):
+                return None     # conditional definition
+        tgt = d.ast.targets[0]
+        src_ = _raw_cover(ctx, d.ast.value, d, idx_param, depth + 1)
+        if isinstance(tgt, ast.Name):
+            return src_
+        if isinstance(tgt, (ast.Tuple, ast.List)) and all(isinstance(x, ast.Name) for x in tgt.elts) and src_ == 'all':
+            return frozenset([[x.id for x in tgt.elts].index(e.id)])      # i_x, i_y = idx
+        return None
+    if isinstance(e, ast.Call) and astx.call_name(e) in ('tuple', 'list') and len(e.args) == 1 and not e.keywords:
+        return _raw_cover(ctx, e.args[0], at, idx_param, depth + 1)
+    if isinstance(e, ast.Subscript) and isinstance(e.slice, ast.Constant) and isinstance(e.slice.value, int):
+        c = _raw_cover(ctx, e.value, at, idx_param, depth + 1)
+        return frozenset([e.slice.value]) if c == 'all' and e.slice.value >= 0 else None
+    if isinstance(e, (ast.Tuple, ast.List)) and e.elts:
+        cs = [_raw_cover(ctx, x, at, idx_param, depth + 1) for x in e.elts]
+        if any(c is None for c in cs):
+            return None
+        if any(c == 'all' for c in cs):
+            return 'all'
+        return frozenset().union(*cs)
+    return None
+
+
+def _key_names(ctx, e, at, depth=0):
+    """Names the cache key is built from (a name defined once as a tuple of names stands for those names)."""
+    out = set()
+    for n in astx.walk(e):
+        if isinstance(n, ast.Name):
+            out.add(n.id)
+            u = ctx.unique_def(n.id, at)
+            if u is not None and depth < 3 and isinstance(u[0], (ast.Tuple, ast.List, ast.Name)):
+                out |= _key_names(ctx, u[0], u[1], depth + 1)
+    return out
+
+
+@rule('C15.cachekey', floor=10)
+def cachekey(repo, out):
+    """Single-point coefficient caches (`if key not in self.coeffs: self.coeffs[key] = ...`): the key determines
+    everything the cached coefficients are computed from."""
+    for rel in SCAN:
+        if not repo.exists(rel) or 'self.coeffs' not in repo.source(rel):
+            continue
+        for fn in repo.module(rel).funcs.values():
+            if fn.cls is None or len(fn.node.args.args) < 3:
+                continue
+            sites = []
+            for st in astx.walk_stmts(fn.node.body):
+                if isinstance(st, ast.If) and isinstance(st.test, ast.Compare) and len(st.test.ops) == 1 and \
+                        isinstance(st.test.ops[0], ast.NotIn) and astx.path(st.test.comparators[0]) == 'self.coeffs':
+                    sites.append(st)
+            if not sites:
+                continue
+            ctx = Ctx(fn)
+            idx_param = fn.node.args.args[2].arg
+            taint = _index_tainted(fn, idx_param)
+            for st in sites:
+                key = st.test.left
+                stores = [s_ for s_ in astx.walk_stmts(st.body) if isinstance(s_, ast.Assign) and
+                          any(isinstance(t, ast.Subscript) and astx.path(t.value) == 'self.coeffs' for t in s_.targets)]
+                if len(stores) != 1 or st.orelse:
+                    out.unsure(fn, st, 'cache fill is not a single `self.coeffs[key] = value` statement')
+                    continue
+                store = stores[0]
+                skey = next(t for t in store.targets if isinstance(t, ast.Subscript)).slice
+                at_test = ctx.g.nodes_of(st)[0]
+                at_store = ctx.at(store)
+                problems = []
+                if not astx.same(skey, key):
+                    problems.append(f'the entry is stored under `{astx.src(skey)}` but looked up under `{astx.src(key)}`')
+                # every read of the cache in this function uses the tested key, unchanged in between
+                for n in astx.walk(fn.node):
+                    if isinstance(n, ast.Subscript) and isinstance(n.ctx, ast.Load) and \
+                            astx.path(n.value) == 'self.coeffs' and not astx.in_body(n, st, 'body'):
+                        if not astx.same(n.slice, key):
+                            problems.append(f'the cache is read with `{astx.src(n.slice)}` but filled under `{astx.src(key)}`')
+                        else:
+                            at_load = ctx.at(n)
+                            for nm in astx.names(key):
+                                if ctx.rd.defs(at_load, nm) - ctx.rd.defs(at_test, nm) - ctx.rd.defs(at_store, nm):
+                                    problems.append(f'`{nm}` is re-assigned between the cache test and the read '
+                                                    f'`{astx.src(n)}`')
+                if problems:
+                    out.bad(fn, st, '; '.join(problems) + ': a query can receive the coefficients of another cell',
+                            key='cache-key-mismatch')
+                    continue
+                cover = _raw_cover(ctx, key, at_test, idx_param)
+                if cover is not None:
+                    dim = _const_attr(repo, rel, fn.cls.name, 'dim')
+                    if cover == 'all' or (isinstance(dim, int) and cover >= frozenset(range(dim))):
+                        out.ok(fn, st, f'key `{astx.src(key)}` is the raw interval index: one entry per distinct query '
+                               'index')
+                    elif isinstance(dim, int):
+                        out.bad(fn, st, f'the cache key `{astx.src(key)}` holds only component(s) {sorted(cover)} of the '
+                                f'{dim}-dimensional interval index: cells that differ in another axis share one entry',
+                                key='cache-key-partial')
+                    else:
+                        out.unsure(fn, st, 'self.dim is not a constant: cannot tell whether the key covers every axis')
+                    continue
+                # key is (built from) the clamped index: the cached value must be a function of the key alone
+                knames = _key_names(ctx, key, at_test)
+                bad = []
+                for nm in sorted(_names_no_dtype(store.value) - {'self'}):
+                    if nm not in taint:
+                        continue            # does not depend on the cell at all (dtype, table sizes)
+                    if nm in knames and ctx.rd.defs(at_store, nm) == ctx.rd.defs(at_test, nm):
+                        continue            # part of the key
+                    bad.append(nm)
+                if bad:
+                    defs = []
+                    for nm in bad:
+                        vals = sorted({astx.src(d.ast) for d in ctx.rd.defs(at_store, nm) if d.kind == 'stmt'})
+                        defs.append(f'`{nm}` ({"; ".join(vals)[:120]})')
+                    out.bad(fn, st, f'the cache key `{astx.src(key)}` is the clamped interval index, but the cached value '
+                            f'`{astx.src(store.value)}` also depends on {", ".join(defs)}, which differs between queries '
+                            'that are clamped to the same cell (e.g. an extrapolated query and an in-bounds query of the '
+                            'first/last cell): whichever comes first decides what the other one gets',
+                            key='cache-key-clamped')
+                else:
+                    out.ok(fn, st, f'cached value `{astx.src(store.value)}` depends on the cell only through the key '
+                           f'`{astx.src(key)}`')
+
+
 # ===================================================================================== exact rules
 class Bench:
     """Builds interpolators inside the evaluator (through their own constructors) and queries them."""
@@ -1388,12 +1572,16 @@ def roomy(f):
         return _TRAMP[0](f)
 
 
-def run_family(repo, out, fam, deg, seed):
-    """Exact checks of one method family (general class + fixed 1D/2D/3D classes)."""
-    roomy(lambda: _run_family(repo, out, fam, deg, seed))
+def run_family(repo, out, fam, deg, seed, deep=False):
+    """Exact checks of one method family (general class + fixed 1D/2D/3D classes).
+
+    quick: one table per dimension (two in 1-D); in 3-D the polynomial sweep and the out-of-bounds sweep are left
+    to the deep variant (node values, cell interpolant and agreement with the general class remain, and the
+    bounds check is the same code for every dimension).  deep: more tables per dimension, all sweeps."""
+    roomy(lambda: _run_family(repo, out, fam, deg, seed, deep))
 
 
-def _run_family(repo, out, fam, deg, seed):
+def _run_family(repo, out, fam, deg, seed, deep):
     b = Bench(repo)
     v = Verdicts(repo, out)
     rng = random.Random(seed)
@@ -1409,10 +1597,13 @@ def _run_family(repo, out, fam, deg, seed):
     k = probe.attrs['table'].attrs.get('k')
     if not isinstance(k, int) or not 2 <= k <= 5:
         raise AnalysisError(f'{b.tab[fam][1]}.k = {k!r} is not a small integer')
-    sizes = {1: [(k,), (k + 3,)], 2: [(k + 1, k)], 3: [(k, k + 2, k + 1)]}
+    sizes = {1: [(k,), (k + 3,)], 2: [(k + 2, k + 1)], 3: [(k, k + 2, k + 1)]}
+    if deep:
+        sizes = {1: [(k,), (k + 3,), (k + 1,)], 2: [(k + 2, k + 1), (k + 1, k), (k + 2, k + 3)], 3: [(k, k + 2, k + 1), (k + 1, k, k + 2)]}
     # every dimension has cells whose corner coordinates are all non-zero (a zero coordinate makes whole terms of
     # the coefficient formulas vanish and would hide a wrong one); grids ending at 0 give tolerance 0
-    kinds = {1: [('neg',), ('zero_end',)], 2: [('zero_end', 'neg')], 3: [('neg', 'zero_end', 'pos')]}
+    kinds = {1: [('neg',), ('zero_end',), ('mixed',)], 2: [('zero_end', 'neg'), ('neg', 'zero_end'), ('pos', 'mixed')],
+             3: [('neg', 'zero_end', 'pos'), ('mixed', 'neg', 'zero_end')]}
     for d in (1, 2, 3):
         fkey = f'{d}D-{fam}'
         keys = [fam] + ([fkey] if fkey in b.tab else [])
@@ -1462,7 +1653,7 @@ def _run_family(repo, out, fam, deg, seed):
                             v.good(rel, cls, 'nodes', len(r))
                     # (b) reproduction of a random polynomial of the method's degree
                     pts = inner + faces + node_pts[:2]
-                    r = guarded(v, rel, cls, 'degree', tag, lambda: query(pvals, pts))
+                    r = guarded(v, rel, cls, 'degree', tag, lambda: query(pvals, pts)) if (deep or d < 3) else None
                     if r is not None:
                         bad = [(p, x, f(p)) for p, x in zip(pts, r) if x != f(p)]
                         if bad:
@@ -1488,7 +1679,7 @@ def _run_family(repo, out, fam, deg, seed):
                             else:
                                 v.good(rel, cls, 'cell', len(r))
                     # (d) points outside the grid raise, axis by axis
-                    for a in range(d):
+                    for a in (range(d) if (deep or d < 3) else ()):
                         for off, side in ((-1, 'below'), (1, 'above')):
                             p = [inside(rng, grids[c], 0) for c in range(d)]
                             p[a] = (grids[a][0] - F(1, 5)) if off < 0 else (grids[a][-1] + F(1, 5))
@@ -1521,36 +1712,61 @@ def _run_family(repo, out, fam, deg, seed):
     v.flush()
 
 
-@rule('C15.exact_slinear', floor=19)
+@rule('C15.exact_slinear', floor=17)
 def exact_slinear(repo, out):
-    """slinear, 1D/2D/3D-slinear: node values, multilinear reproduction, variants agree, raises exactly outside."""
+    """slinear, 1D/2D/3D-slinear: node values, multilinear reproduction, cell interpolant, variants agree, raises
+    exactly outside."""
     run_family(repo, out, 'slinear', 1, 1501)
 
 
-@rule('C15.exact_lagrange2', floor=15)
+@rule('C15.exact_lagrange2', floor=13)
 def exact_lagrange2(repo, out):
     """lagrange2, 1D/2D/3D-lagrange2: node values, tensor-quadratic reproduction, variants agree, raises outside."""
     run_family(repo, out, 'lagrange2', 2, 1502)
 
 
-@rule('C15.exact_lagrange3', floor=15)
+@rule('C15.exact_lagrange3', floor=13)
 def exact_lagrange3(repo, out):
     """lagrange3, 1D/2D/3D-lagrange3: node values, tensor-cubic reproduction, variants agree, raises outside."""
     run_family(repo, out, 'lagrange3', 3, 1503)
 
 
+@rule('C15.exact_slinear_deep', floor=19, tier='thorough')
+def exact_slinear_deep(repo, out):
+    """As C15.exact_slinear with more tables per dimension (other sizes, mixed-sign grids) and every sweep in 3-D."""
+    run_family(repo, out, 'slinear', 1, 2501, deep=True)
+
+
+@rule('C15.exact_lagrange2_deep', floor=15, tier='thorough')
+def exact_lagrange2_deep(repo, out):
+    """As C15.exact_lagrange2 with more tables per dimension and every sweep in 3-D."""
+    run_family(repo, out, 'lagrange2', 2, 2502, deep=True)
+
+
+@rule('C15.exact_lagrange3_deep', floor=15, tier='thorough')
+def exact_lagrange3_deep(repo, out):
+    """As C15.exact_lagrange3 with more tables per dimension and every sweep in 3-D."""
+    run_family(repo, out, 'lagrange3', 3, 2503, deep=True)
+
+
 # ------------------------------------------------------------------------------- bracket searches
 @rule('C15.bracket', floor=3)
 def bracket(repo, out):
-    """Each bracket search, from every cached start index on 1-D tables of k..k+3 points, finds a cell whose
+    """Each bracket search, from every reachable cached index on 1-D tables of k and k+3 points, finds a cell whose
     interpolant is exact (general, fixed scalar and fixed vectorised search)."""
-    roomy(lambda: _bracket(repo, out))
+    roomy(lambda: _bracket(repo, out, (0, 3)))
+
+
+@rule('C15.bracket_deep', floor=3, tier='thorough')
+def bracket_deep(repo, out):
+    """As C15.bracket on tables of k..k+5 points (the doubling phase of the search takes more than two steps)."""
+    roomy(lambda: _bracket(repo, out, (0, 1, 2, 3, 4, 5)))
 
 
 FAMILIES = (('slinear', 1), ('lagrange2', 2), ('lagrange3', 3))
 
 
-def _bracket(repo, out):
+def _bracket(repo, out, nsizes):
     b = Bench(repo)
     v = Verdicts(repo, out)
     rng = random.Random(1504)
@@ -1578,7 +1794,7 @@ def _bracket(repo, out):
             continue
         fixed = key.startswith('1D-')
         users = ', '.join(k_ for k_, _ in members)
-        for n in range(k0, k0 + 5):
+        for n in (k0 + i_ for i_ in nsizes):
             g = mk_grid(rng, n, GRID_KINDS[n % 4])
             if deg == 1:
                 # generic data: a wrong cell shows (polynomial data would be reproduced from any cell)
@@ -1685,7 +1901,13 @@ def exact_semi(repo, out):
     """InterpNDSemi with slinear / lagrange2 / lagrange3 on 1-D and 2-D semi-structured tables: value at every
     data point, reproduction of random polynomials of the method's degree, search from every cached index,
     OutOfBoundsError exactly outside when extrapolate is False."""
-    roomy(lambda: _exact_semi(repo, out))
+    roomy(lambda: _exact_semi(repo, out, False))
+
+
+@rule('C15.exact_semi_deep', floor=14, tier='thorough')
+def exact_semi_deep(repo, out):
+    """As C15.exact_semi with two 1-D tables per method and the search on tables of k..k+4 points."""
+    roomy(lambda: _exact_semi(repo, out, True))
 
 
 def _semi_points(rng, k):
@@ -1700,7 +1922,7 @@ def _semi_points(rng, k):
     return xs, rows, ylo, yhi
 
 
-def _exact_semi(repo, out):
+def _exact_semi(repo, out, deep):
     b = Bench(repo)
     v = Verdicts(repo, out)
     rng = random.Random(1507)
@@ -1718,7 +1940,7 @@ def _exact_semi(repo, out):
         fb = repo.lookup(rel, cls, 'bracket')
         searches.setdefault(fb.ident if fb is not None else None, []).append((fam, deg, rel, cls, k))
         # ---------------- 1-D tables
-        for n, kind in ((k, 'neg'), (k + 2, 'zero_end')):
+        for n, kind in (((k, 'neg'), (k + 2, 'zero_end')) if deep else ((k + 1, 'zero_end'),)):
             g = mk_grid(rng, n, kind)
             garr = X.Arr(list(g), (n,))
             generic = X.Arr([F(rng.randint(-20, 20)) for _ in g], (n,))
@@ -1811,7 +2033,7 @@ def _exact_semi(repo, out):
     for ident, members in searches.items():
         fam, deg, rel, cls, k = members[0]
         users = ', '.join(m_[0] for m_ in members)
-        for n in range(k, k + 4):
+        for n in ((k, k + 1, k + 2, k + 3, k + 4) if deep else (k, k + 3)):
             g = mk_grid(rng, n, GRID_KINDS[n % 4])
             garr = X.Arr(list(g), (n,))
             if deg == 1:
@@ -1967,6 +2189,9 @@ _SEMI_LOW = ('                    if not self.extrapolate:\n'
              '                        raise OutOfBoundsError(msg, self.idim, x, grid[0], grid[-1])\n\n'
              '                    return last_index, -1')
 
+_AK = D + 'interp_akima.py'
+_AK_CACHE = ('        if query_idx not in self.coeffs:\n            self.coeffs[query_idx] = self.compute_coeffs(idx, extrap)\n'
+             '        a, b, c, d = self.coeffs[query_idx]')
 _CHECK_BODY = (
     '            for i, p in enumerate(xi.T):\n'
     '                if np.isnan(p).any():\n'
@@ -2054,6 +2279,33 @@ selftest(
            '                print(errmsg)\n                continue', 'C15.propagate'),
     Mutant('prop-semi-swallowed', MMSS, '                raise AnalysisError(errmsg, inspect.currentframe(), self.msginfo)',
            '                val = np.nan', 'C15.propagate'),
+    Mutant('prop-semi-flag-dropped-prefix', SEMI, '        table = interp(self.grid, values, interp, extrapolate=extrapolate, **kwargs)',
+           '        table = interp(self.grid, values, interp, **kwargs)', 'C15.propagate'),
+    Mutant('prop-semi-flag-dropped-seen-by-evaluation', SEMI,
+           '        table = interp(self.grid, values, interp, extrapolate=extrapolate, **kwargs)',
+           '        table = interp(self.grid, values, interp, **kwargs)', 'C15.exact_semi'),
+    # ---------------------------------------------------------------- C15.cachekey
+    Mutant('cache-akima-clamped-key-seed', _AK, _AK_CACHE,
+           '        if idx not in self.coeffs:\n            self.coeffs[idx] = self.compute_coeffs(idx, extrap)\n'
+           '        a, b, c, d = self.coeffs[idx]', 'C15.cachekey'),
+    Mutant('cache-akima-read-other-key', _AK, '        a, b, c, d = self.coeffs[query_idx]', '        a, b, c, d = self.coeffs[idx]',
+           'C15.cachekey'),
+    Mutant('cache-sl-1d-store-other-key', _S, '            self.coeffs[idx_key] = self.compute_coeffs(idx, dtype)\n        a = self.coeffs[idx_key]\n\n'
+           '        val = a[0] + a[1] * (x - grid[idx])',
+           '            self.coeffs[idx] = self.compute_coeffs(idx, dtype)\n        a = self.coeffs[idx_key]\n\n'
+           '        val = a[0] + a[1] * (x - grid[idx])', 'C15.cachekey'),
+    Mutant('cache-sl-2d-partial-key', _S, '        x, y = x\n        idx_key = tuple(idx)\n', '        x, y = x\n        idx_key = idx[0]\n',
+           'C15.cachekey'),
+    Mutant('cache-sl-2d-partial-key-seen-by-evaluation', _S, '        x, y = x\n        idx_key = tuple(idx)\n',
+           '        x, y = x\n        idx_key = idx[0]\n', 'C15.exact_slinear'),
+    Mutant('cache-l2-1d-key-after-reassign', LAG2, '        a = self.coeffs[i_x]\n\n        x = x[0]\n',
+           '        i_x = i_x + 0\n        a = self.coeffs[i_x - 1]\n\n        x = x[0]\n', 'C15.cachekey'),
+    Mutant('cache-l3-3d-extra-dependence', LAG3, '        idx = (i_x, i_y, i_z)\n\n        # Complex Step\n        if self.values.dtype == complex:\n'
+           '            dtype = self.values.dtype\n        else:\n            dtype = x.dtype\n\n        if idx not in self.coeffs:\n'
+           '            self.coeffs[idx] = self.compute_coeffs(idx, dtype)',
+           '        idx = (i_x, i_y)\n\n        # Complex Step\n        if self.values.dtype == complex:\n'
+           '            dtype = self.values.dtype\n        else:\n            dtype = x.dtype\n\n        if idx not in self.coeffs:\n'
+           '            self.coeffs[idx] = self.compute_coeffs((i_x, i_y, i_z), dtype)', 'C15.cachekey'),
     # ---------------------------------------------------------------- C15.methods
     Mutant('methods-dim-swap', _I, "'2D-slinear': Interp2DSlinear,", "'2D-slinear': Interp3DSlinear,", 'C15.methods'),
     Mutant('methods-family-swap', _I, "'1D-lagrange2': Interp1DLagrange2,", "'1D-lagrange2': Interp1DLagrange3,",
@@ -2257,8 +2509,18 @@ selftest(
          "            extrap = self.options['extrapolate']\n"
          "            self.interps[name] = InterpND(method=interp_method, points=self.inputs, values=train_data,\n"
          "                                          extrapolate=extrap)"),
-    Twin('twin-semi-flag-forwarded', SEMI, '        table = interp(self.grid, values, interp, **kwargs)',
-         '        table = interp(self.grid, values, interp, extrapolate=extrapolate, **kwargs)'),
+    Twin('twin-semi-flag-from-attribute', SEMI, '        table = interp(self.grid, values, interp, extrapolate=extrapolate, **kwargs)',
+         '        table = interp(self.grid, values, interp, extrapolate=self.extrapolate, **kwargs)'),
+    Twin('twin-akima-key-with-side', _AK, _AK_CACHE,
+         '        key = (idx, extrap)\n        if key not in self.coeffs:\n'
+         '            self.coeffs[key] = self.compute_coeffs(idx, extrap)\n        a, b, c, d = self.coeffs[key]'),
+    Twin('twin-akima-key-renamed', _AK, '        query_idx = idx\n', '        raw = idx\n',
+         also=[(_AK, _AK_CACHE, '        if raw not in self.coeffs:\n            self.coeffs[raw] = self.compute_coeffs(idx, extrap)\n'
+                '        a, b, c, d = self.coeffs[raw]')]),
+    Twin('twin-sl-key-inline', _S, '        if idx_key not in self.coeffs:\n            self.coeffs[idx_key] = self.compute_coeffs(idx, dtype)\n'
+         '        a = self.coeffs[idx_key]\n\n        val = a[0] + (a[1] + a[3] * y) * x + a[2] * y',
+         '        if tuple(idx) not in self.coeffs:\n            self.coeffs[tuple(idx)] = self.compute_coeffs(idx, dtype)\n'
+         '        a = self.coeffs[tuple(idx)]\n\n        val = a[0] + (a[1] + a[3] * y) * x + a[2] * y'),
     Twin('twin-bisect-flipped', _A, _BIS, '            if grid[low] > x:\n                high = low\n            else:\n'
          '                last_index = low'),
     Twin('twin-bisect-branches-swapped', _A, _BIS, '            if x >= grid[low]:\n                last_index = low\n            else:\n'
